@@ -19,6 +19,7 @@ import hashlib
 import json
 import os
 import random
+import re
 import threading
 import time
 from concurrent.futures import ThreadPoolExecutor
@@ -28,6 +29,7 @@ import vlib
 LEVEL = "model_checking"
 INVS = ("AckSound", "WrittenBitSound", "ColdFlagSound", "AtMostMaxTries", "FailOnlyAfterAllTries", "TypeOK")
 CHUNK_LINES = 12000
+BATCH = 20000
 
 
 class _SubCtx:
@@ -161,13 +163,18 @@ def _compact(e):
     return "ret %s accepted hot=%s cold=%s" % (e["res"], bits(e["acc"]["hot"]), bits(e["acc"]["cold"]))
 
 
-def _split_runs(path):
+_NTAIL = re.compile(r'"n":(\d+),"rep":(\d+)}$')
+
+
+def _split_runs(path, offset=0):
     runs, cur = [], None
     with open(path) as fh:
         for ln in fh:
             ln = ln.rstrip("\n")
             if not ln:
                 continue
+            if offset:      # script index relative to the batch -> index into the whole list
+                ln = _NTAIL.sub(lambda m: '"n":%d,"rep":%s}' % (int(m.group(1)) + offset, m.group(2)), ln)
             if ln.startswith('{"ev":"reset"'):
                 cur = []
                 runs.append(cur)
@@ -203,8 +210,8 @@ def _selftest(ctx, runs):
         if evs[-1]["res"] == "ok" and sum(1 for e in evs if e["ev"] == "shard") >= 2 and evs[0]["guard"]:
             pick = evs
             break
-    if pick is None:
-        raise vlib.Infra("self-test: no acknowledged run with two shard calls was recorded")
+    if pick is None:        # (replay mode, tiny inputs) corrupt the hand-written run instead
+        pick = [json.loads(x) for x in _synthetic_good()]
     a = [dict(e) for e in pick]
     for e in a:                                    # field corrupted: the first failed replica call claims success
         if e["ev"] == "shard" and any(o in ("err", "lost") for o in e["out"]):
@@ -242,68 +249,86 @@ def run(ctx):
         replay = dict(replay)
         replay["reps"] = 40
 
-    # ---- 1. the design
-    r_small = _design(ctx, "BulkWrite_small.cfg", "BulkWrite small (Strict)")
-    _design(ctx, "BulkWrite_gen.cfg", "BulkWrite small (re-send allowed)")
-    _design(ctx, "BulkWrite_live.cfg", "BulkWrite liveness")
-    if not quick:
-        _design(ctx, "BulkWrite_hot33.cfg", "BulkWrite hot<=3x3, cold<=1x1", coverage=False)
-        _design(ctx, "BulkWrite_all.cfg", "BulkWrite all 90 topologies (VIEW abstraction of the finished cold tier)")
-    design_states = ctx.cov["states"]
-
-    # ---- 2. emission of scripts
-    stats = {"emitted": 0}
-    scripts = {}
-    cf = os.path.join(ctx.scratch, "bw-emit.jsonl")
-    r = vlib.run_tlc(ctx, "BulkWrite.tla", "BulkWrite_emit.cfg", case_file=cf, timeout=3000)
-    if r.violated:
-        raise vlib.Infra("TLC: %s violated in BulkWrite.tla (emit)" % r.violated)
-    vlib.require_tlc_ok(r, "BulkWrite emit")
-    tiny = {}
-    _load_scripts(cf, "exh", tiny, stats)
-    n_tiny_all = len(tiny)
-    keys = sorted(tiny)
-    if quick:
-        rnd.shuffle(keys)
-        keys = keys[:900]
-    for k in keys:
-        scripts[k] = tiny[k]
-    cf2 = os.path.join(ctx.scratch, "bw-sim.jsonl")
-    r = vlib.run_tlc(ctx, "BulkWrite.tla", "BulkWrite_sim.cfg", case_file=cf2, workers=1 if quick else 8,
-                     simulate="num=%d" % (1500 if quick else 20000), depth=100, timeout=3000)
-    if r.violated:
-        raise vlib.Infra("TLC: %s violated in BulkWrite.tla (simulate)" % r.violated)
-    vlib.require_tlc_ok(r, "BulkWrite simulate")
-    sim = {}
-    _load_scripts(cf2, "sim", sim, stats)
-    for k in sorted(sim):
-        scripts.setdefault(k, sim[k])
-    if stats.get("res_ok", 0) == 0 or stats.get("res_err", 0) == 0:
-        raise vlib.Infra("vacuous emission: %s" % stats)
-    slist = [scripts[k] for k in sorted(scripts)]
-    rnd.shuffle(slist)
-    pads = ["err", "ok", "lost"]
-    for i, sc in enumerate(slist):
-        sc["pad"] = pads[rnd.randrange(3)]
-        sc["real"] = rnd.randrange(1 << 30)
-        multi = sc["topo"]["hs"] > 1 or sc["topo"]["cs"] > 1
-        sc["reps"] = (3 if quick else 4) if multi else 1
-        # some of the faulty scripts are replayed with breakers that trip by themselves
-        faulty = any(o != "ok" for t in ("hot", "cold") for s in sc[t] for rp in s for o in rp)
-        sc["natural"] = bool(faulty and sc["origin"] == "sim" and rnd.random() < 0.2)
-        if sc["natural"]:
-            sc["rejs"] = []
+    design_states, n_tiny_all, slist = 0, 0, []
     if replay:
         slist = [replay]
-    vlib.log("[c09] %d scripts (%d of the %d exhaustive tiny-topology scripts, %d simulated; TLC results %s)" % (
-        len(slist), len(keys), n_tiny_all, len(sim), {k: v for k, v in stats.items() if k.startswith("res_")}))
+    else:
+        # ---- 1. the design
+        r_small = _design(ctx, "BulkWrite_small.cfg", "BulkWrite small (Strict)")
+        _design(ctx, "BulkWrite_gen.cfg", "BulkWrite small (re-send allowed)")
+        _design(ctx, "BulkWrite_live.cfg", "BulkWrite liveness")
+        if not quick:
+            _design(ctx, "BulkWrite_hot33.cfg", "BulkWrite hot<=3x3, cold<=1x1", coverage=False)
+            _design(ctx, "BulkWrite_all.cfg", "BulkWrite all 90 topologies (VIEW abstraction of the finished cold tier)")
+        design_states = ctx.cov["states"]
+
+        # ---- 2. emission of scripts
+        stats = {"emitted": 0}
+        scripts = {}
+        cf = os.path.join(ctx.scratch, "bw-emit.jsonl")
+        r = vlib.run_tlc(ctx, "BulkWrite.tla", "BulkWrite_emit.cfg", case_file=cf, timeout=3000)
+        if r.violated:
+            raise vlib.Infra("TLC: %s violated in BulkWrite.tla (emit)" % r.violated)
+        vlib.require_tlc_ok(r, "BulkWrite emit")
+        tiny = {}
+        _load_scripts(cf, "exh", tiny, stats)
+        n_tiny_all = len(tiny)
+        keys = sorted(tiny)
+        if quick:
+            rnd.shuffle(keys)
+            keys = keys[:900]
+        for k in keys:
+            scripts[k] = tiny[k]
+        cf2 = os.path.join(ctx.scratch, "bw-sim.jsonl")
+        r = vlib.run_tlc(ctx, "BulkWrite.tla", "BulkWrite_sim.cfg", case_file=cf2, workers=1 if quick else 8,
+                         simulate="num=%d" % (1500 if quick else 4000), depth=100, timeout=3000)
+        if r.violated:
+            raise vlib.Infra("TLC: %s violated in BulkWrite.tla (simulate)" % r.violated)
+        vlib.require_tlc_ok(r, "BulkWrite simulate")
+        sim = {}
+        _load_scripts(cf2, "sim", sim, stats)
+        sk = sorted(sim)
+        rnd.shuffle(sk)
+        for k in sk[:(4000 if quick else 12000)]:        # TLC's multi-worker simulator overshoots num=
+            scripts.setdefault(k, sim[k])
+        if stats.get("res_ok", 0) == 0 or stats.get("res_err", 0) == 0:
+            raise vlib.Infra("vacuous emission: %s" % stats)
+        slist = [scripts[k] for k in sorted(scripts)]
+        rnd.shuffle(slist)
+        pads = ["err", "ok", "lost"]
+        for i, sc in enumerate(slist):
+            sc["pad"] = pads[rnd.randrange(3)]
+            sc["real"] = rnd.randrange(1 << 30)
+            multi = sc["topo"]["hs"] > 1 or sc["topo"]["cs"] > 1
+            sc["reps"] = 3 if multi else 1
+            # some of the faulty scripts are replayed with breakers that trip by themselves
+            faulty = any(o != "ok" for t in ("hot", "cold") for s in sc[t] for rp in s for o in rp)
+            sc["natural"] = bool(faulty and sc["origin"] == "sim" and rnd.random() < 0.2)
+            if sc["natural"]:
+                sc["rejs"] = []
+        vlib.log("[c09] %d scripts (%d of the %d exhaustive tiny-topology scripts, %d simulated; TLC results %s)" % (
+            len(slist), len(keys), n_tiny_all, len(sk), {k: v for k, v in stats.items() if k.startswith("res_")}))
 
     # ---- 3. adaptive replay into the real client
-    trace = os.path.join(ctx.scratch, "bw-trace.ndjson")
+    # (batches of BATCH scripts, each with its own trace file: vlib.run_cases starts a fresh driver per chunk of
+    #  its input and the driver numbers scripts from 0 in every invocation)
     t0 = time.time()
-    mism, summ, crashes = vlib.run_cases(ctx, drv, ["-workers", str(max(8, 4 * vlib.NCPU)), "-out", trace], slist,
-                                         label="bw", timeout=3000)
+    runs, mism, summ = [], [], {"cases": 0, "evals": 0, "nontrivial": 0}
+    for b0 in range(0, len(slist), BATCH):
+        trace = os.path.join(ctx.scratch, "bw-trace-%d.ndjson" % b0)
+        m_, s_, _ = vlib.run_cases(ctx, drv, ["-workers", str(max(8, 4 * vlib.NCPU)), "-out", trace], slist[b0:b0 + BATCH],
+                                   label="bw%d" % b0, timeout=3000)
+        for o in m_:
+            if isinstance(o.get("n"), int):
+                o["n"] += b0
+        mism += m_
+        for k in summ:
+            summ[k] += s_[k]
+        runs += _split_runs(trace, b0)
+        os.remove(trace)
     vlib.log("[c09] driver: %s in %.1fs" % (summ, time.time() - t0))
+    if len(runs) != summ["evals"] and not mism:
+        raise vlib.Infra("the driver reports %d runs but recorded %d" % (summ["evals"], len(runs)))
     for i, m in enumerate(mism):
         if i >= 8:          # leave room for what trace validation finds
             vlib.log("[c09] %d further direct disagreements not reported one by one" % (len(mism) - 8))
@@ -311,7 +336,6 @@ def run(ctx):
         ctx.violation("bulkwrite:direct:%s" % m.get("what", "")[:48], m, what=m.get("what", ""))
 
     # ---- 4. trace validation
-    runs = _split_runs(trace)
     if not runs:
         raise vlib.Infra("the driver recorded no run")
     subs = _selftest(ctx, runs)
@@ -391,14 +415,14 @@ def run(ctx):
         + ("" if quick else "; plus hot<=3x3 with cold<=1x1, and all 90 topologies up to 3x3/3x3 under a VIEW that abstracts the finished long-term tier")
         + ". binding: script = (topology, per-host outcome of the k-th call, breaker schedule) projected from finished TLC behaviours: "
         + ("a seeded sample of 900 of" if quick else "all") + " the %d distinct scripts of the exhaustive enumeration over topologies with <=4 hosts, plus seeded -simulate behaviours over all 90 topologies with a fault budget; "
-        "each script is run 1 (single-shard tiers) or 3-4 times against the real SeqDBClient; every run is validated by TLC against BulkWriteTrace. "
+        "each script is run 1 (single-shard tiers) or 3 times against the real SeqDBClient; every run is validated by TLC against BulkWriteTrace. "
         "distinct_nontrivial = distinct recorded runs (topology, sequence of shard calls with called replicas and outcomes, result) with at least one failed call or open breaker") % n_tiny_all
     ctx.assumptions += [
         "stores are scripted fakes of storeapi.StoreApiClient; 'accepted' is the fake's own bookkeeping (payload compared byte for byte), not a real store's disk",
         "timeout = the breaker's 25 ms execution deadline expiring inside a call (the fake waits for ctx.Done()); a late reply that still reports success is not modelled",
         "breaker rejections are not observable call by call: BreakerReject is left to TLC and restricted to breakers the harness saw open (forced open/close at shard-call boundaries through the process-global circuit manager); "
         "in the runs with self-tripping breakers it is unrestricted",
-        "the client's written bits are inferred by TLC from which replicas are called; shard order is whatever math/rand produced (adaptive replay, 3-4 repetitions)",
+        "the client's written bits are inferred by TLC from which replicas are called; shard order is whatever math/rand produced (adaptive replay, 3 repetitions)",
         "uniform replica count per tier (as stores.NewStoresFromString builds it); hot tier non-empty; context never cancelled by the caller",
         "one bulk at a time per process (breakers are process-global); concurrency of several bulks through shared breakers is not explored",
     ]
